@@ -60,7 +60,7 @@ func main() {
 		"phase hist: DAG of ≤ 80 nodes, push phase, then 6–25 random operations (tag/move/untag/delete/GC/re-push/stray), every Delete and GC judged in place. " +
 		"Oracle: Exists, Resolve, Tags, Predecessors, recursive blobs/ listing before vs after against the reference GC model of the statement (removed set and kept set both exact; current tags, not ever-tagged). " +
 		"distinct = hash(DAG shape, operation sequence with targets/GC points); non-trivial = some judged operation removed ≥ 2 nodes or removed a node adjacent to a surviving tagged node")
-	r.Assume("one media type per digest (media-type twins are C01's subject); AutoSaveIndex left at its default (true); the store is not reopened inside a history (reopen is C08's subject)")
+	r.Assume("content is pushed under one media type per digest (media-type twins are C01's subject); a third of the tags are placed with the descriptor Resolve(<digest>) returns (application/octet-stream for plain blobs), and a reference must then resolve to that descriptor; AutoSaveIndex left at its default (true); the store is not reopened inside a history (reopen is C08's subject)")
 	r.Assume("'indexed' (for referrer chains in GC) is read from index.json before the call")
 	r.Assume("unjudged by construction: an untagged referrer of removed content that a surviving node still links to (the statement contradicts itself there); everything else is judged conditional on what happened to that node")
 	r.Assume("GC: 'reachable' is read recursively (least fixpoint): a referrer whose subject is reachable only through another kept referrer must be kept; histories with that shape are additionally replayed 8 times on fresh stores and must end with identical blobs/ contents")
@@ -416,11 +416,16 @@ func pickNode(rng *rand.Rand, e *env, stored bool, manifestBias int) int {
 }
 
 func (e *env) tagOp(rng *rand.Rand) (op, bool) {
-	n := pickNode(rng, e, true, 88)
+	via := rng.IntN(3) == 0
+	bias := 88
+	if via {
+		bias = 40 // Resolve(<digest>) differs from the pushed descriptor for plain blobs
+	}
+	n := pickNode(rng, e, true, bias)
 	if n < 0 {
 		return op{}, false
 	}
-	return op{Op: "tag", Node: n, Ref: refPool[rng.IntN(len(refPool))]}, true
+	return op{Op: "tag", Node: n, Ref: refPool[rng.IntN(len(refPool))], Via: via}, true
 }
 
 // pushOrder returns the nodes in the order class drawn.
